@@ -178,6 +178,12 @@ class World:
         self._set_environ(self.login.env)
         _W = self
 
+    def machine_cpus(self):
+        """Cores of the machine the current virtual process runs on: a compute node of a batch has twice the cores SLURM
+        granted the batch (partial allocation); the login node / local mode has `cpus`."""
+        p = self.cur
+        return self.cpus * 2 if p is not None and getattr(p, "batch", None) is not None else self.cpus
+
     # ------------------------------------------------------------------ bookkeeping
     def record(self, kind, **kw):
         self.seq += 1
@@ -1015,7 +1021,11 @@ def install():
     import multiprocessing
 
     _REAL["cpu_count"] = multiprocessing.cpu_count
-    multiprocessing.cpu_count = lambda: _W.cpus if _W is not None else _REAL["cpu_count"]()
+    _REAL["os_cpu_count"] = os.cpu_count
+    # the machine has more cores than the batch's allocation (a shared node): the node's CPU count for a SLURM batch is what
+    # SLURM grants it (SLURM_CPUS_ON_NODE); in local mode the machine count is the node's count
+    multiprocessing.cpu_count = lambda: _W.machine_cpus() if _W is not None else _REAL["cpu_count"]()
+    os.cpu_count = lambda: _W.machine_cpus() if _W is not None else _REAL["os_cpu_count"]()
 
 
 World.logging_real = False
